@@ -1,7 +1,8 @@
 import WhVerif.Util.Proto
 import WhVerif.Model.C13
-import WhVerif.Model.C13Header
+import WhVerif.Model.C13Bridge
 import WhVerif.Spec.C13Edit
+import WhVerif.Model.C04Json
 namespace WhVerif.Driver.C13
 open Lean WhVerif.Proto WhVerif.C13
 
@@ -50,24 +51,15 @@ def exceptJson : Except Err (List Record) → Json
   | .ok v => Json.mkObj [("ok", ofList recordJson v)]
   | .error e => Json.mkObj [("err", errJson e)]
 
-def parseHLine (j : Json) : Option HLine := do
-  let idj ← getObj? j "id"
-  let id ← (if idj.isNull then some none else (asStr? idj).map some)
-  pure { key := ← getStr? j "key", id := id, text := ← getStr? j "text" }
+def hline? (j : Json) : Option C04.HLine := do
+  let id := match j.getObjVal? "id" with
+    | .ok (Json.str s) => some s
+    | _ => none
+  some ⟨← getStr? j "key", id, (getStr? j "number").getD "", (getStr? j "type").getD "", (getStr? j "text").getD ""⟩
 
-/-- `c13.header {lines: [{key, id|null, text}]}` → `{cur: [text…], fix: [text…]}` (`unphase_header` as in HEAD / after F76.patch) -/
-def handleHeader (op : String) (j : Json) : Option Json :=
-  if op == "c13.header" then
-    match (getList? j "lines").bind (·.mapM parseHLine) with
-    | some h => some (Json.mkObj [("cur", ofList (fun (l : HLine) => Json.str l.text) (unphaseHeaderCur h)),
-                                  ("fix", ofList (fun (l : HLine) => Json.str l.text) (unphaseHeaderFix h))])
-    | none => some badInput
-  else if op == "c13.isedit" then
-    -- `{a: records, b: records}` → `{edit: editB a b, same: unphase a = unphase b}`
-    match (getList? j "a").bind (·.mapM parseRecord), (getList? j "b").bind (·.mapM parseRecord) with
-    | some a, some b => some (Json.mkObj [("edit", Json.bool (editB a b)), ("same", Json.bool (decide (unphase b = unphase a)))])
-    | _, _ => some badInput
-  else none
+def ofHLine (l : C04.HLine) : Json :=
+  Json.mkObj [("key", Json.str l.key), ("id", match l.id with | some s => Json.str s | none => Json.null),
+    ("text", Json.str l.text)]
 
 /-- `c13.unphase {records}` → `{spec: [...], fix: {ok|err}, cur: {ok|err}}` -/
 def handle (op : String) (j : Json) : Option Json :=
@@ -77,5 +69,23 @@ def handle (op : String) (j : Json) : Option Json :=
                                   ("fix", exceptJson (unphaseFix v)),
                                   ("cur", exceptJson (unphaseCur v))])
     | none => some badInput
-  else handleHeader op j
+  else if op == "c13.header" then
+    -- {header} -> the header after one and after two applications, as coded and after fixes/F61.patch
+    match (getList? j "header").bind (·.mapM hline?) with
+    | some h => some (Json.mkObj [("cur", ofList ofHLine (unphaseHeader h)),
+                                  ("cur2", ofList ofHLine (unphaseHeader (unphaseHeader h))),
+                                  ("fix", ofList ofHLine (unphaseHeaderFix h))])
+    | none => some badInput
+  else if op == "c13.of_c04" then
+    -- records in the JSON of the C04 model -> the same records in this model, and unphased
+    match (getList? j "records").bind (·.mapM fun r => (getObj? r "record").bind C04.Json.record?) with
+    | some rs => some (Json.mkObj [("plain", ofList recordJson (rs.map ofC04)),
+                                   ("unphased", ofList recordJson (unphase (rs.map ofC04)))])
+    | none => some badInput
+  else if op == "c13.isedit" then
+    -- `{a: records, b: records}` → `{edit: editB a b, same: unphase a = unphase b}`
+    match (getList? j "a").bind (·.mapM parseRecord), (getList? j "b").bind (·.mapM parseRecord) with
+    | some a, some b => some (Json.mkObj [("edit", Json.bool (editB a b)), ("same", Json.bool (decide (unphase b = unphase a)))])
+    | _, _ => some badInput
+  else none
 end WhVerif.Driver.C13
